@@ -33,7 +33,8 @@ RULE = ("random class models (inheritance depth <= 3, 1-2 type parameters rename
         "at nesting depth 0-3 in return annotations, in base-class arguments and in an Iterable base, classes named like typing "
         "exports (Container, Sequence, Collection, Reversible), class- and method-level callbacks that return a new call node "
         "(renamed / wrapped) on classes whose method results are used as sub-expressions, a dataclass whose fields carry string "
-        "annotations (forward references; whole models under `from __future__ import annotations`), fixed "
+        "annotations (forward references; whole models under `from __future__ import annotations`), plain non-generic subclasses "
+        "two and three levels below a parameterised base (also of an Iterable[...] base), fixed "
         "non-generic subclasses, Iterable subclasses with extra parameters, a registered custom collection, unannotated "
         "methods) and well-typed expressions generated with their expected type (method chains, Select/SelectMany/Where/"
         "First/Count/len/subscript at depth <= 3, comparisons, and/or, int/float arithmetic, dict fields, conditionals); "
@@ -121,13 +122,22 @@ class Spec:
         self.add("Blocks", kp, nest(("v", kp[0]), 3), {"size": ("p", "int")})
         ip = r.sample(tvs, r.choice([1, 2]))
         self.add("MyIter", ip, ("it", ("v", ip[-1])), {"tag": ("p", "int"), "head": ("v", ip[-1])})
+        # ordinary NON-generic subclasses of classes that derive from a parameterised base (two levels of inheritance):
+        # they have no __orig_bases__ of their own - the base chain is reached through the inherited attribute
+        self.add("SubFixed", [], ("c", "Fixed", []), {"own": ("p", "float")})
+        self.add("ItE0", [], ("it", E[0]), {"size": ("p", "int")})
+        self.add("GoodItE0", [], ("c", "ItE0", []), {"good": ("p", "bool")})
+        self.add("BoxI", [], ("c", MID, [r.choice([("p", "int"), E[1]]) for _ in mp]), {})
+        self.add("MyBoxI", [], ("c", "BoxI", []), {})
+        self.add("MyBoxI2", [], ("c", "MyBoxI", []), {"deep3": ("p", "int")})
         self.coll_methods = {"MyFirst": ("v", "M"), "MyCount": ("p", "int")}
         inst = lambda c: ("c", c, [r.choice([("p", "int"), ("p", "float"), E[0], E[1]]) for _ in self.classes[c]["params"]])  # noqa
         ev = {"n": ("p", "int"), "x": ("p", "float"), "ok": ("p", "bool"), "raw": None,
               "base": inst(BASE), "mid": inst(MID), "leaf": inst("Leaf"), "fixed": ("c", "Fixed", []),
               "grouped": inst("Grouped"), "blocks": inst("Blocks"), "nested": nest(r.choice(E + [("p", "int")]), 2),
               "it": inst("MyIter"), "e0s": ("it", E[0]), "e1s": ("it", E[1]), "mids": ("it", inst(MID)),
-              "e0": E[0], "rec": ("c", "Rec", [])}
+              "e0": E[0], "rec": ("c", "Rec", []), "subfixed": ("c", "SubFixed", []), "gooditems": ("c", "GoodItE0", []),
+              "mybox": ("c", "MyBoxI", []), "mybox2": ("c", "MyBoxI2", []), "goods": ("it", ("c", "GoodItE0", []))}
         # a dataclass whose fields are annotated with forward references (strings), as user code writes them
         self.fields = {"Rec": {"lead": E[0], "count": ("p", "int"), "subs": ("it", E[1]), "best": inst(MID)}}
         self.add("Rec", [], None, {})
@@ -228,7 +238,7 @@ class G:
                     v, t = self.coll(v, t, el, d)
                     continue
                 m = r.choice(ms)
-                if t[2] or t[1] in ("Fixed", "Leaf", "MyIter", "Grouped", "Blocks"):
+                if t[2] or t[1] in ("Fixed", "Leaf", "MyIter", "Grouped", "Blocks", "SubFixed", "GoodItE0", "MyBoxI", "MyBoxI2"):
                     self.interesting = True
                 v, t = call(A(v, m), []), self.s.method(t, m)
             elif t[0] == "it":
